@@ -97,6 +97,43 @@ let () =
     (try
       toks := Array.of_list (List.filter (fun s -> s <> "") (split_line line));
       pos := 0;
+      if !toks.(0) = "R" then begin
+        (* replay mode:  R <nsub> {<doc hex> <answer>}* <events>   ->   Q <error> <skip_lvl> <depth> <pending> <charset> <lang> <n> node* *)
+        ignore (next ());
+        let nsub = next_int () in
+        let subs = Hashtbl.create 8 in
+        for _ = 1 to nsub do
+          let doc = next () in
+          let ans = (match next () with
+              | "OK" -> let lid = next_n () in let n = next_int () in
+                let roots = rep n p_node in Inl { xt_lang = lid; xt_charset = N0; xt_roots = roots }
+              | "ERR" -> Inr (next_n ())
+              | x -> raise (Bad ("sub " ^ x))) in
+          Hashtbl.replace subs doc ans
+        done;
+        let rec evs acc = if more () then evs (p_event () :: acc) else List.rev acc in
+        let events = evs [] in
+        let missing = ref [] in
+        let sub (doc : n list) =
+          let h = hex_of_bytes doc in
+          match Hashtbl.find_opt subs h with
+          | Some a -> a
+          | None -> missing := h :: !missing; Inr (n_of_int 996) in
+        let c = run main_table sub [n_of_int 120] init_ctx events in
+        (match !missing with
+         | _ :: _ -> Printf.printf "NEED %s\n" (List.hd (List.rev !missing))
+         | [] ->
+           let t = tree_of_ctx c in
+           let pending = (match c.c_spine with
+               | f :: _ -> (match f.f_kind with FElt (_, _, Some b) -> List.length b | _ -> -1)
+               | [] -> -1) in
+           Buffer.clear buf;
+           addi (int_of_n c.c_error); addi (int_of_n c.c_skip_lvl); addi (List.length c.c_spine); addi pending;
+           addi (int_of_n t.xt_charset); addi (int_of_n t.xt_lang); addi (List.length t.xt_roots);
+           List.iter pr_node t.xt_roots;
+           Printf.printf "Q%s\n" (Buffer.contents buf));
+        raise Exit
+      end;
       let input = next_hex () in
       let st = next_int () <> 0 in
       let nsub = next_int () in
@@ -130,5 +167,6 @@ let () =
             Printf.printf "T OK%s\n" (Buffer.contents buf)
           | Inr e -> Printf.printf "T ERR %d\n" (int_of_n e)))
     with Bad why -> Printf.printf "bad %s\n" why
+       | Exit -> ()
        | Stack_overflow -> print_endline "bad stack-overflow")
   done with End_of_file -> ()
